@@ -11,6 +11,7 @@
   with what `validate_update` does (`Ctx.taw`, `Ctx.disc`, `Ctx.dup`).
 -/
 import Rbgp.Wire.UpdateRound
+import Rbgp.Wire.ErrClass
 set_option linter.unusedSimpArgs false
 set_option linter.unusedVariables false
 namespace Rbgp.Wire
@@ -1342,6 +1343,260 @@ theorem Ctx.dup (h : Ctx c u cs kept removed cut s1 s' attrs attrEnd) {code : Na
   · rcases cutCls_cases hcc hxw with hh | hh <;> cases hh
 
 end
+/-! ## attributes in front of framing damage (the `weak` cases) -/
+
+theorem attrBody_errs_mono {two : Bool} {buf : Bytes} {s s' : AState} {flags code alen pos : Nat}
+    (h : attrBody two buf s flags code alen pos = .ok s') : ∀ e ∈ s.errs, e ∈ s'.errs := by
+  unfold attrBody at h
+  split at h
+  · split at h
+    · cases h
+    · injection h with h; subst h; exact fun e he => he
+  · simp only at h
+    split at h
+    · rw [attrKnownW_eq] at h
+      injection h with h; subst h
+      intro e he
+      unfold attrKnown
+      simp only
+      split
+      · split <;> simp [he]
+      · unfold attrDecoded
+        split
+        · rw [(attrStore_fields _ _ _).2.2.1]
+          split <;> simp [he]
+        · split <;> split <;> simp [he]
+    · unfold attrUnknown at h
+      split at h
+      · injection h with h; subst h; intro e he; simp [he]
+      · split at h
+        · split at h
+          · cases h
+          · obtain ⟨raw, _, h⟩ := bind_eq_ok h
+            injection h with h; subst h; exact fun e he => he
+        · injection h with h; subst h; exact fun e he => he
+
+theorem attrLoop_errs_mono {two : Bool} {buf : Bytes} {attrEnd : Nat} :
+    ∀ fuel (s s' : AState), attrLoop two buf attrEnd fuel s = .ok s' → ∀ e ∈ s.errs, e ∈ s'.errs := by
+  intro fuel
+  induction fuel with
+  | zero => intro s s' h; simp [attrLoop] at h
+  | succ fuel ih =>
+    intro s s' h
+    unfold attrLoop at h
+    split at h
+    · obtain ⟨hd, _, h⟩ := bind_eq_ok h
+      split at h
+      · injection h with h; subst h; exact fun e he => he
+      · split at h
+        · injection h with h; subst h; exact fun e he => he
+        · obtain ⟨s1, hb, h⟩ := bind_eq_ok h
+          intro e he
+          exact ih s1 s' h e (attrBody_errs_mono hb e he)
+    · injection h with h; subst h; exact fun e he => he
+
+/-- the attribute loop over well-framed items followed by ANY bytes: what the items leave in the error list stays -/
+theorem attrLoop_prefix {two : Bool} {buf : Bytes} {attrEnd : Nat} {tail : Bytes} (hEnd : attrEnd ≤ buf.length) :
+    ∀ (ws ps : List WItem) (pos : Nat) (s : AState) (fuel : Nat),
+      (∀ w ∈ ws, ItemOK w) →
+      buf.drop pos = ws.flatMap renderItem ++ tail →
+      pos + (ws.flatMap renderItem).length ≤ attrEnd →
+      s.pos = pos → PInv two ps s →
+      ∀ s', attrLoop two buf attrEnd fuel s = .ok s' →
+        ∃ s1, PInv two (ps ++ ws) s1 ∧ ∀ e ∈ s1.errs, e ∈ s'.errs := by
+  intro ws
+  induction ws with
+  | nil =>
+    intro ps pos s fuel _ _ _ _ hi s' h
+    exact ⟨s, by simpa using hi, attrLoop_errs_mono fuel s s' h⟩
+  | cons w rest ih =>
+    intro ps pos s fuel hok hd hsum hs hi s' h
+    have hw := hok w (by simp)
+    have hrest : ∀ x ∈ rest, ItemOK x := fun x hx => hok x (List.mem_cons_of_mem _ hx)
+    simp only [List.flatMap_cons, List.append_assoc, List.length_append] at hd hsum
+    have hrl := renderItem_length w
+    obtain ⟨hhdr, hdata⟩ := attrHeader_item (attrEnd := attrEnd) hw hd (by omega)
+    have hwin : (buf.drop (pos + hdrLen w)).take w.data.length = w.data := by
+      rw [hdata]; simp
+    match fuel with
+    | 0 => simp [attrLoop] at h
+    | fuel + 1 =>
+      unfold attrLoop at h
+      have hh3 : 3 ≤ hdrLen w := by unfold hdrLen; split <;> omega
+      rw [hs, if_pos (by omega), hhdr] at h
+      simp only [Out.bind_ok] at h
+      rw [if_neg (by omega)] at h
+      obtain ⟨hberr, hbok⟩ := attrBody_pinv (two := two) (buf := buf) (pos := pos + hdrLen w) hi hwin (by omega)
+      obtain ⟨s1, hb, h⟩ := bind_eq_ok h
+      obtain ⟨hi1, hpos1⟩ := hbok s1 hb
+      have hd' : buf.drop (pos + (renderItem w).length) = rest.flatMap renderItem ++ tail := by
+        have := congrArg (List.drop (renderItem w).length) hd
+        rw [List.drop_drop, drop_app _ _ _ rfl] at this
+        exact this
+      obtain ⟨s2, hi2, hm⟩ := ih (ps ++ [w]) (pos + (renderItem w).length) s1 fuel hrest hd' (by omega)
+        (by rw [hpos1, hrl]; omega) hi1 s' h
+      exact ⟨s2, by simpa [List.append_assoc] using hi2, hm⟩
+
+/-- the sound prefix is a prefix of the items, lies inside the block, and none of its items is `weak` -/
+theorem soundPrefix_spec (two : Bool) (L : Nat) : ∀ (items : List WItem) (used : Nat),
+    ∃ rest, items = soundPrefix two L items used ++ rest ∧
+      used + ((soundPrefix two L items used).flatMap renderItem).length ≤ max used L ∧
+      ∀ w ∈ soundPrefix two L items used, Cls.weak ∉ itemCls two w := by
+  intro items
+  induction items with
+  | nil => intro used; exact ⟨[], by simp [soundPrefix], by simp [soundPrefix]; omega, by simp [soundPrefix]⟩
+  | cons w ws ih =>
+    intro used
+    unfold soundPrefix
+    split
+    · rename_i hc
+      obtain ⟨rest, h1, h2, h3⟩ := ih (used + (renderItem w).length)
+      refine ⟨rest, by rw [List.cons_append, ← h1], ?_, ?_⟩
+      · simp only [List.flatMap_cons, List.length_append]
+        have := hc.1
+        omega
+      · intro x hx
+        simp only [List.mem_cons] at hx
+        rcases hx with rfl | hx
+        · simpa using hc.2
+        · exact h3 x hx
+    · exact ⟨w :: ws, by simp, by simp; omega, by simp⟩
+
+/-- what a treat-as-withdraw class of an item says about the item (no `Ctx` needed) -/
+theorem item_taw_flagged {c : Codec} {u : CUpdate} {two : Bool} {w : WItem} {x : Cls} (hf : ItemFacts c u w)
+    (hcls : x ∈ itemCls two w) (ht : x = Cls.taw ∨ x = Cls.tawOrReset) :
+    w.kind ≠ 1 ∧ Flagged two w ∧ errIsTaw (w.code, w.flags) = true := by
+  have hxw : x ≠ Cls.weak := by rcases ht with rfl | rfl <;> simp
+  rcases itemCls_cases hcls hxw with ⟨hk, hmp, hm, _⟩ | ⟨hk, hmp, hm, _⟩ | ⟨hk, hmp, hv, hxm⟩ | ⟨_, _, _, hd⟩ | ⟨hk0, hk1, hfl, _⟩
+  · cases hcl : attrClass w.code with
+    | none => exact absurd hcl (hf.k0 hk)
+    | some cls =>
+      have hcw := conflict_of_mismatch hf.flags hcl hm
+      exact ⟨by omega, Or.inl hcw, errIsTaw_of_conflict hcw⟩
+  · cases hcl : attrClass w.code with
+    | none => exact absurd hcl (hf.k0 hk)
+    | some cls =>
+      have hcw := conflict_of_mismatch hf.flags hcl hm
+      exact ⟨by omega, Or.inl hcw, errIsTaw_of_conflict hcw⟩
+  · cases hcl : attrClass w.code with
+    | none => exact absurd hcl (hf.k0 hk)
+    | some cls =>
+      by_cases hcw : conflictW w = true
+      · exact ⟨by omega, Or.inl hcw, errIsTaw_of_conflict hcw⟩
+      · have hnd : discardable w.code = false := by
+          cases hd : discardable w.code with
+          | false => rfl
+          | true =>
+            exfalso
+            rw [hxm] at ht
+            unfold malformedCls at ht
+            rw [if_pos hd] at ht
+            rcases ht with ht | ht <;> cases ht
+        have h1718 : w.code ≠ 17 ∧ w.code ≠ 18 := by
+          unfold discardable at hnd
+          simp only [Bool.or_eq_false_iff, beq_eq_false_iff_ne, ne_eq] at hnd
+          exact ⟨hnd.1.2, hnd.2⟩
+        have hdec : decodeW two w = none := invalid_decode_none (known_of_class hcl) hmp hv
+        have hmust : errMustTaw (w.code, w.flags) = true := by
+          unfold errMustTaw
+          simp only [hcl, hnd, Bool.not_false]
+        exact ⟨by omega, Or.inr (Or.inl ⟨canonical_some hcl, hdec, h1718.1, h1718.2⟩),
+          must_taw_table _ _ hf.flags hmust⟩
+  · rcases ht with rfl | rfl <;> cases hd
+  · have hk2 : w.kind = 2 := by have := hf.kind; omega
+    have hcl := hf.k2 hk2
+    have hmust : errMustTaw (w.code, w.flags) = true := by
+      unfold errMustTaw
+      simp only [hcl, hfl]
+    exact ⟨hk1, Or.inr (Or.inr ⟨canonical_none hcl, high_bit _ hf.flags hfl⟩), must_taw_table _ _ hf.flags hmust⟩
+
+/-- an attribute in front of the framing damage that demands treat-as-withdraw: no route is announced, however the
+    rest of the block is framed -/
+theorem weak_prefix_no_reach {dec : HypDec} {p : Profile} {c : Codec} {u : CUpdate} {cs : List Corr} {buf : Bytes}
+    {hdr : Notif} {m : Msg} (ebgp : Bool)
+    (hwf : wfCase c u cs = true) (hl : Layout c u cs buf) (hlen : buf.length = totalLen c u cs)
+    (hp : prefixMustTaw c u cs = true)
+    (h : parseUpdateWith updateLens dec p c buf hdr = .ok m) :
+    reachMsgs (validateMessage ebgp m) = [] := by
+  obtain ⟨_, _, _, _, _, hsize, hst, _⟩ := wf_parts hwf
+  obtain ⟨hfacts, hfo, _⟩ := struct_items hst
+  have ht : totalLen c u cs = 23 + (wdB c u).length + (blockBytes c u cs).length + (legacyNlriBytes c u cs).length := rfl
+  have hmx := maxLen_le c
+  have hrl := render_length c u cs
+  have hlens := updateLens_layout hl hlen (by omega)
+  -- the sound prefix and the item that demands treat-as-withdraw
+  obtain ⟨rest, hitems, hinside, hnoweak⟩ :=
+    soundPrefix_spec c.two (blockBytes c u cs).length (blockItems c u cs) 0
+  generalize hpre : soundPrefix c.two (blockBytes c u cs).length (blockItems c u cs) 0 = pre at hitems hinside hnoweak
+  unfold prefixMustTaw at hp
+  rw [hpre] at hp
+  simp only [List.any_eq_true, Bool.or_eq_true, beq_iff_eq] at hp
+  obtain ⟨w, hwpre, x, hxcls, hxt⟩ := hp
+  have hwitems : w ∈ blockItems c u cs := by rw [hitems]; simp [hwpre]
+  obtain ⟨hk1, hflag, htaw⟩ := item_taw_flagged (hfacts w hwitems) hxcls hxt
+  have hfirst : firstOf pre w.code = some w := by
+    obtain ⟨p1, p2, hsplit⟩ := List.append_of_mem hwpre
+    have : blockItems c u cs = p1 ++ w :: (p2 ++ rest) := by rw [hitems, hsplit]; simp
+    exact firstOf_of_first hsplit (firstOcc_split _ _ hfo p1 w _ this hk1).1
+  have hpreOK : ∀ y ∈ pre, ItemOK y := fun y hy =>
+    itemOK_of_nonweak (hfacts y (by rw [hitems]; simp [hy])) (hnoweak y hy)
+  -- the block starts with the rendered prefix
+  have hplen : (pre.flatMap renderItem).length ≤ (blockBytes c u cs).length := by
+    have := hinside; simp only [Nat.zero_add] at this; omega
+  have hblock : ∃ t, blockBytes c u cs = pre.flatMap renderItem ++ t := by
+    have hle : (blockBytes c u cs).length ≤
+        ((blockItems c u cs).flatMap renderItem).length - truncTotal cs := by
+      unfold blockBytes; exact List.length_take_le _ _
+    have hn : (pre.flatMap renderItem).length ≤ ((blockItems c u cs).flatMap renderItem).length - truncTotal cs := by
+      omega
+    unfold blockBytes
+    simp only
+    rw [hitems] at hn ⊢
+    simp only [List.flatMap_append] at hn ⊢
+    refine ⟨(rest.flatMap renderItem).take
+      ((pre.flatMap renderItem ++ rest.flatMap renderItem).length - truncTotal cs - (pre.flatMap renderItem).length), ?_⟩
+    rw [List.take_append, List.take_of_length_le hn]
+  obtain ⟨t, hblk⟩ := hblock
+  have hd : buf.drop (23 + (wdB c u).length) = pre.flatMap renderItem ++ (t ++ legacyNlriBytes c u cs) := by
+    rw [hl.dBlk, hblk, List.append_assoc]
+  -- run the parser
+  unfold parseUpdateWith at h
+  rw [if_neg (by omega), hlens] at h
+  simp only [Out.bind_ok] at h
+  obtain ⟨reachLen, _, h⟩ := bind_eq_ok h
+  obtain ⟨s', hloop, h⟩ := bind_eq_ok h
+  obtain ⟨s1, hi1, hmono⟩ := attrLoop_prefix (two := c.two) (buf := buf)
+    (attrEnd := 23 + (wdB c u).length + (blockBytes c u cs).length) (by omega) pre [] (23 + (wdB c u).length)
+    { pos := 23 + (wdB c u).length } (buf.length + 1) hpreOK hd (by omega) rfl (PInv.init c.two _) s' hloop
+  have herr1 : (w.code, w.flags) ∈ s1.errs := hi1.errs w w.code (by simpa using hfirst) hflag
+  have herr' : (w.code, w.flags) ∈ s'.errs := hmono _ herr1
+  split at h
+  · injection h with h; subst h
+    simp [validateMessage, reachMsgs]
+  · obtain ⟨reach, _, h⟩ := bind_eq_ok h
+    obtain ⟨unreach, _, h⟩ := bind_eq_ok h
+    obtain ⟨mpr, _, h⟩ := bind_eq_ok h
+    obtain ⟨mpu, _, h⟩ := bind_eq_ok h
+    unfold assemble at h
+    split at h
+    · injection h with h; subst h
+      simp [validateMessage, reachMsgs]
+    · cases htwo : c.two with
+      | false =>
+        rw [htwo] at h
+        simp only [Bool.false_eq_true, if_false, Out.bind_ok] at h
+        injection h with h; subst h
+        simp only [validateMessage]
+        exact (validate_taw_no_reach (tawDecision_of_err (finalErrs_sub herr') htaw)).1
+      | true =>
+        rw [htwo] at h
+        simp only [if_true] at h
+        obtain ⟨attrs, _, h⟩ := bind_eq_ok h
+        injection h with h; subst h
+        simp only [validateMessage]
+        exact (validate_taw_no_reach (tawDecision_of_err (finalErrs_sub herr') htaw)).1
+
+
 /-! ## the checker's clauses -/
 
 def annSets (u : CUpdate) : List (Nat × List PNlri) :=
@@ -1371,13 +1626,17 @@ theorem check_ok_msgs {c : Codec} {ebgp : Bool} {u : CUpdate} {cs : List Corr} {
       ((Cls.taw ∈ allClasses c u cs ∨ Cls.tawOrReset ∈ allClasses c u cs) → tawDone u msgs = true) ∧
       (tawDone u msgs = true ∨
         ((∀ code, Cls.discardOrTaw code ∈ allClasses c u cs → ∀ as ∈ reachMsgs msgs, ∀ a ∈ as, a.code ≠ code) ∧
-         (∀ code d, Cls.dup code d ∈ allClasses c u cs → ∀ as ∈ reachMsgs msgs, believes as code d = false)))) :
+         (∀ code d, Cls.dup code d ∈ allClasses c u cs → ∀ as ∈ reachMsgs msgs, believes as code d = false))))
+    (h4 : prefixMustTaw c u cs = true → reachMsgs msgs = []) :
     check c ebgp u cs (.ok msgs) = .ok := by
   unfold check
   simp only [hwf, Bool.not_true, Bool.false_eq_true, if_false]
   rw [if_neg (by rw [h1]; simp), if_neg (by rw [h2]; simp)]
   by_cases hweak : (allClasses c u cs).contains Cls.weak = true
   · rw [if_pos hweak]
+    by_cases hp : prefixMustTaw c u cs = true
+    · rw [h4 hp]; simp
+    · simp [hp]
   · rw [if_neg hweak]
     have hnw : Cls.weak ∉ allClasses c u cs := by simpa using hweak
     obtain ⟨h3a, h3b, h3c⟩ := h3 hnw
@@ -1486,7 +1745,7 @@ theorem wdSets_withdrawn (ebgp : Bool) (u : CUpdate) (r mr : Option Reach) (un :
     exact mem_withdrawnOut this
 
 /-- byte-level master theorem: the reference checker accepts what the model does with every rendered case -/
-theorem check_run_ok (dec : HypDec) (hd : dec.NP) (p : Profile) (c : Codec) (ebgp : Bool) (u : CUpdate)
+theorem check_run_ok (dec : HypDec) (hd : dec.NP) (hde : dec.E3) (p : Profile) (c : Codec) (ebgp : Bool) (u : CUpdate)
     (cs : List Corr) : USpec.check c ebgp u cs (runUpdate dec p c ebgp (render c u cs)) = .ok := by
   by_cases hwf : wfCase c u cs = true
   case neg => unfold check; simp [hwf]
@@ -1504,9 +1763,13 @@ theorem check_run_ok (dec : HypDec) (hd : dec.NP) (p : Profile) (c : Codec) (ebg
   | panic => rw [hres] at hnp; exact absurd hnp (by simp [Out.NP])
   | err e =>
     simp only
+    have hcode : e.code = 3 := by
+      have := parseUpdate_EC23 hde p c (render c u cs) ⟨1, 2, d⟩ (by rw [hlen]; unfold totalLen; omega)
+      rw [hres] at this
+      exact this
     by_cases hweak : Cls.weak ∈ allClasses c u cs
     · unfold check
-      simp [hwf, hweak]
+      simp [hwf, hweak, hcode]
     · exfalso
       obtain ⟨_, _, _, _, _, _, _, hparse, _⟩ := nonweak_parse hd ⟨1, 2, d⟩ hwf hsp hweak hl hlen
       rw [hres] at hparse; cases hparse
@@ -1515,7 +1778,7 @@ theorem check_run_ok (dec : HypDec) (hd : dec.NP) (p : Profile) (c : Codec) (ebg
     have hlens := updateLens_layout hl hlen (by omega)
     have hun := legacyUnreach_render (dec := dec) hl hlen hwd
     obtain ⟨h1, h2⟩ := weak_obligations ebgp hlens hun hres
-    refine check_ok_msgs hwf h1 h2 ?_
+    refine check_ok_msgs hwf h1 h2 ?_ (fun hp => weak_prefix_no_reach ebgp hwf hl hlen hp hres)
     intro hnw
     obtain ⟨s1, s', attrs, hinv, herrs, _, htrunc, hparse, hcodes, hkeeps⟩ :=
       nonweak_parse hd ⟨1, 2, d⟩ hwf hsp hnw hl hlen
